@@ -437,9 +437,11 @@ fn rendezvous(ctx: &mut Ctx, case: u64, rng: &mut Rng, nthreads: usize) {
     let datas = Arc::new(datas);
     let mut clusters_done = 0u64;
     'clusters: for ci in 0..nclusters {
-        // the last content held by cluster ci
-        let id = match dec.contents.iter().enumerate().filter(|(_, c)| c.0 == ci).map(|(i, _)| i).last() {
-            Some(i) => i,
+        // the contents held by cluster ci: the first thread waits for the end of the last one, the others for
+        // the ends of contents spread over the cluster (readers blocked on *different* published lengths)
+        let ids: Vec<usize> = dec.contents.iter().enumerate().filter(|(_, c)| c.0 == ci).map(|(i, _)| i).collect();
+        let id = match ids.last() {
+            Some(i) => *i,
             None => continue,
         };
         gate.waiters.store(0, Ordering::SeqCst);
@@ -452,6 +454,7 @@ fn rendezvous(ctx: &mut Ctx, case: u64, rng: &mut Rng, nthreads: usize) {
             let datas = Arc::clone(&datas);
             let tx = tx.clone();
             let barrier = Arc::clone(&barrier);
+            let id = if t == 0 || ci % 2 == 0 { id } else { ids[(t * ids.len() / nthreads).min(ids.len() - 1)] };
             std::thread::spawn(move || {
                 barrier.wait();
                 let res = std::panic::catch_unwind(std::panic::AssertUnwindSafe(|| -> Result<bool, String> {
